@@ -993,7 +993,7 @@ def run(chk: harness.Check):
     import c04
     sub = harness.Check("C04", chk.tier)
     c04.run(sub)
-    harness.fold(chk, sub, lambda r: "C03.D5-report-offsets" if r.startswith("C04.") else r,
+    harness.fold(chk, sub, lambda r: "C03.D5-report-offsets." + r.split(".", 1)[1] if r.startswith("C04.") else r,
                  keep=lambda r: r in ("C04.D1-provenance", "C04.D1-discharge", "anchor-missing"))
     # census (not armed)
     census = Counter()
